@@ -207,6 +207,7 @@ PLACEMENTS = ['residue', 'nterm', 'cterm', 'interval', 'unknown', 'labile', 'sta
 def run(ctx):
     st = State()
     pt = install(ctx, st)
+    ctx.enable_disturb(pt, 0.03)     # other legitimate library calls interleaved between cases (vf.gen.disturb)
     cfg = gp.GenCfg(min_len=1, max_len=20, letters=LETTERS, weights=dict(gp.W_MASS), p_isotope=0.0, p_mult=0.2,
                     p_res=0.3, p_interval=0.2, p_unknown=0.2, p_labile=0.25, p_static=0.3, p_charge=0.4)
     n = ctx.n(60000, 2000000)
